@@ -15,7 +15,7 @@ open UtpVerif.Model UtpVerif.Model.VSock
 def trace : Nat → VSock → Nat → Nat → List (Nat × Nat × Bool × Bool)
   | 0, _, _, _ => []
   | fuel + 1, v, remaining, windowRemaining =>
-    if ¬ (remaining > 0 ∧ windowRemaining > 0) then [] else
+    if ¬ (remaining > 0 ∧ windowRemaining > 0 ∧ v.segs.segs.length < Gen.MAX_TX_SEGMENTS) then [] else
     let (ss', ssz) := v.ss.nextSegmentSize
     let v := { v with ss := ss' }
     let maxPayload := min ssz windowRemaining
@@ -115,15 +115,17 @@ theorem segment_sizes (fuel : Nat) (v : VSock) (remaining win : Nat)
           · have := ih { v with ss := v.ss.nextSegmentSize.1, segs := _ } _ _ ⟨hp.2.1, hp.2.2⟩ e he
             omega
 
-/-- **Nagle off: nothing is held back** except by the peer's window, an outstanding MTU probe, or the
-end of the data: when the loop stops (with enough fuel) either everything buffered was segmented, or
-the peer's window is used up, or the segment just created is an MTU probe. -/
+/-- **Nagle off: nothing is held back** except by the peer's window, an outstanding MTU probe, the end of the
+data, or the cap on the number of queued segments (D25): when the loop stops (with enough fuel) either everything
+buffered was segmented, or the peer's window is used up, or the segment just created is an MTU probe, or the
+queue holds `MAX_TX_SEGMENTS` segments. -/
 theorem no_nagle_segments_everything (fuel : Nat) (v : VSock) (remaining win : Nat) (hn : v.opts.nagle = false)
     (hss : 1 ≤ v.ss.minSs ∧ v.ss.minSs ≤ v.ss.maxSs) (hf : remaining < fuel) :
     (segmentLoop fuel v remaining win).2 ≤ remaining ∧
     ((segmentLoop fuel v remaining win).2 = 0 ∨
      win ≤ remaining - (segmentLoop fuel v remaining win).2 ∨
-     (∃ g, (segmentLoop fuel v remaining win).1.segs.segs.getLast? = some g ∧ g.isMtuProbe = true)) := by
+     (∃ g, (segmentLoop fuel v remaining win).1.segs.segs.getLast? = some g ∧ g.isMtuProbe = true) ∨
+     Gen.MAX_TX_SEGMENTS ≤ (segmentLoop fuel v remaining win).1.segs.segs.length) := by
   induction fuel generalizing v remaining win with
   | zero => omega
   | succ fuel ih =>
@@ -144,16 +146,17 @@ theorem no_nagle_segments_everything (fuel : Nat) (v : VSock) (remaining win : N
       generalize min (min v.ss.nextSegmentSize.2 win) remaining = p at *
       split
       · rename_i hprobe
-        refine ⟨by simp only; omega, Or.inr (Or.inr ?_)⟩
+        refine ⟨by simp only; omega, Or.inr (Or.inr (Or.inl ?_))⟩
         refine ⟨{ payloadSize := p, offsetAbs := v.segs.offset, isMtuProbe := decide (p > v.ss.nextSegmentSize.1.mss) }, ?_, ?_⟩
         · simp only [Segments.enqueue, List.getLast?_append, List.getLast?_singleton, Option.some_or]
         · simpa using hprobe
       · obtain ⟨h1, h2⟩ := ih { v with ss := v.ss.nextSegmentSize.1, segs := Segments.enqueue v.segs p (decide (p > v.ss.nextSegmentSize.1.mss)) } (remaining - p) (win - p) hn ⟨hp.2.1, hp.2.2⟩ (by omega)
         refine ⟨by omega, ?_⟩
-        rcases h2 with h2 | h2 | h2
+        rcases h2 with h2 | h2 | h2 | h2
         · exact Or.inl h2
         · right; left; omega
-        · exact Or.inr (Or.inr h2)
+        · exact Or.inr (Or.inr (Or.inl h2))
+        · exact Or.inr (Or.inr (Or.inr h2))
 
 -- Non-vacuity: with Nagle on, 628 buffered bytes behind nothing outstanding give one full 528-byte segment
 -- and the 100-byte tail is held back; with Nagle off both go out.
